@@ -80,4 +80,29 @@ TEXT = {
         level_text="Fault enumeration: for each mapping every chunk size 1..16 and, for every write call the serialiser makes, a short write, a hard failure, an Interrupted error and an Ok(0) are injected exactly there; success must mean the sink holds exactly the canonical bytes, a hard failure must be reported, and after a reported failure the sink holds a prefix of the canonical bytes. Per-site counters show that header, classes, members, by-params, strings and the three non-empty padding sites were all hit.",
         level_note="Trusted: the sink implementations (~100 lines). Per mapping the schedule space is complete; mappings are sampled.",
     ),
+    "C14": dict(
+        technique="runtime monitor: byte-equality oracle within a process, across threads and across separately started processes (digests compared by the driver) + independent implied-length walk; TSan on the threaded writers",
+        level_text="Exploration over inputs, schedules and configurations: the same list of mappings is serialised repeatedly in one process, by 8 concurrent threads, and by 16/32 worker processes that each have their own hash seeds, address-space layout and allocation history; any difference in the bytes (e.g. from iterating a hash container) shows as an unequal digest; the output length must equal the length implied by the header per the documented layout.",
+        level_note="Trusted: SHA-1 in the harness (FIPS vectors self-tested), decoder D's layout walk. RandomState keys differ per process by construction of std.",
+    ),
+    "C16": dict(
+        technique="runtime monitor: descriptor-AST model + independent recursive-descent recogniser + differential mapper vs cache; bounded-exhaustive small descriptors",
+        level_text="Exploration with an exhaustively enumerated sub-space: generated, exhaustively enumerated small, single-edit-corrupted and arbitrary Unicode strings are deobfuscated through mapper and cache; valid descriptors must yield exactly the model's Java types (keywords, [] per dimension, dotted names replaced by the mapping's original), the three documented invalid classes must yield nothing, and mapper and cache must agree on every string.",
+        level_note="Trusted: descriptor model and recogniser (~200 lines), model M for class lookup.",
+    ),
+    "C18": dict(
+        technique="runtime monitor: independent SHA-1/UUIDv5 oracle + offline checker over the (input, uuid) event log with Python hashlib + cross-process equality + raced first call (TSan in thorough)",
+        level_text="Exploration: every input's UUID is recomputed by the harness's own SHA-1 based v5 implementation (namespace = v5(DNS, guardsquare.com)); logged entries are recomputed a second time offline by Python; corpus files are checked in LF and CRLF (must differ), one-bit variants must differ, copies must agree, the fixed set must agree across 16 processes, and the lazily initialised namespace is raced from 16 threads at process start.",
+        level_note="Trusted: two independent SHA-1 implementations (harness, Python hashlib) and the repository's recorded value for mapping-r8.txt.",
+    ),
+    "C19": dict(
+        technique="runtime monitor: reference folds over the generator's AST item stream, boundary-focused workload (item 49/50/51, thousands of leading records)",
+        level_text="Exploration: has_line_info, the five summary fields and is_valid are compared with folds computed from the AST for files built to stress scan limits (decisive records beyond item 50, after error lines, after 5000 unmapped methods, in an unterminated last line) and header handling (repeated, valueless, malformed, non-numeric).",
+        level_note="Trusted: the fold definitions in model.rs (transcribed from the statement), AST printer.",
+    ),
+    "C20": dict(
+        technique="run-time auto-trait probes + concurrent-vs-sequential answer monitor on shared handles (history + sequential model) + ThreadSanitizer + Miri many-seeds race detection",
+        level_text="Exploration over schedules: Send/Sync of 13 public types is observed at run time by probes that compile either way (so a lost auto trait is a reported violation, not a build failure); batches of mixed queries are issued from 2..16 threads against one shared mapper and one shared cache (shared through a force-Sync wrapper so the experiment runs even if the compiler would refuse) and compared with the answers obtained alone; observed overlap (same-key queries with overlapping ticket intervals) and distinct interleaving signatures are measured; TSan and Miri with 4/16 schedule seeds look for data races by happens-before.",
+        level_note="Trusted: TSan (built with -Zbuild-std so std is instrumented), Miri's data-race detector, each gated by a canary that must fire. Limits: an order-dependent but Sync-preserving bug is only caught if a produced schedule exposes it.",
+    ),
 }
